@@ -23,6 +23,7 @@ the key order) predicted by the model equal the real ones.
 from __future__ import annotations
 
 import json
+import os
 
 from harness import common
 from harness.corr import _kv as K
@@ -76,9 +77,20 @@ def run_case(case):
 
 
 def _run_case(case):
+    with K.tmpdir() as tmp:
+        if case["kind"] in K.TILDE_KINDS:
+            with K.home_env(tmp):
+                res = _run_in(case, tmp)
+                # a "~" handed to zarr unexpanded shows up as a literal directory
+                res["literal_tilde"] = os.path.exists(os.path.join(os.path.realpath(tmp), "~"))
+                return res
+        return _run_in(case, tmp)
+
+
+def _run_in(case, tmp):
     kind = case["kind"]
     res = {"case": case, "steps": []}
-    with K.tmpdir() as tmp:
+    if True:
         t = K.Target(kind, tmp)
         with K.quiet(t):
             if case.get("sib"):
@@ -155,14 +167,18 @@ def gen_cases(ck):
     graph_entries = ["write_arrays", "write_dicts", "api_nx", "api_rx", "api_sg"]
     # bounded-exhaustive: the three-step history  write(A); write(B); write(C, overwrite)  for every
     # store kind x siblings x format x entry point (converters on path/str only)
+    pathlike = ("path", "str") + K.TILDE_KINDS
     for fmt in (2, 3):
-        for kind in K.KINDS:
+        for kind in K.KINDS + K.TILDE_KINDS:
             for sib in (False, True):
                 for entry in graph_entries + list(K.CONVERTERS):
-                    if entry in K.CONVERTERS and kind not in ("path", "str"):
+                    if entry in K.CONVERTERS and kind not in pathlike:
                         continue
                     if ck.quick and ((kind == "str") or (entry in ("api_rx",) and sib)):
                         continue
+                    if ck.quick and kind in K.TILDE_KINDS and (
+                            sib or (kind, fmt) not in (("tilde-str", 2), ("tilde-path", 3)) or entry in ("api_rx", "api_sg")):
+                        continue   # quick: ~/… as str in format 2 and as Path in format 3, without siblings
                     first = "write_arrays" if entry == "write_dicts" else entry
                     steps = [{"entry": first, "graph": small_graph(rng, 1, first), "fmt": fmt, "overwrite": False},
                              {"entry": entry, "graph": small_graph(rng, 2, entry), "fmt": fmt, "overwrite": False}]
@@ -172,8 +188,8 @@ def gen_cases(ck):
     # seeded random histories of length 2-4, mixed entry points
     nrand = 24 if ck.quick else 500
     for _ in range(nrand):
-        kind = rng.choice(K.KINDS)
-        entries = graph_entries + (list(K.CONVERTERS) if kind in ("path", "str") else [])
+        kind = rng.choice(K.KINDS + K.TILDE_KINDS)
+        entries = graph_entries + (list(K.CONVERTERS) if kind in pathlike else [])
         c = gen_history(rng, entries, kind, rng.choice((2, 3)), rng.random() < 0.5, rng.randint(2, 4))
         c["stream"] = "random"
         cases.append(c)
@@ -185,6 +201,12 @@ def gen_cases(ck):
                     steps = [{"entry": "write_arrays", "graph": small_graph(rng, 1, "write_arrays"), "fmt": fmt, "overwrite": False},
                              {"entry": "write_arrays", "graph": small_graph(rng, 2, "write_arrays"), "fmt": 5 - fmt, "overwrite": ow}]
                     cases.append({"kind": kind, "sib": sib, "sib_fmt": fmt, "steps": steps, "stream": "cross-format", "cross": True})
+                if kind != "path":
+                    # the no-overwrite half through geff.write, and twice in a row (still refused, nothing changed)
+                    steps = [{"entry": "api_nx", "graph": small_graph(rng, 1, "api_nx"), "fmt": fmt, "overwrite": False},
+                             {"entry": "api_nx", "graph": small_graph(rng, 2, "api_nx"), "fmt": 5 - fmt, "overwrite": False},
+                             {"entry": "write_arrays", "graph": small_graph(rng, 3, "write_arrays"), "fmt": 5 - fmt, "overwrite": False}]
+                    cases.append({"kind": kind, "sib": sib, "sib_fmt": fmt, "steps": steps, "stream": "cross-format", "cross": True})
     d = common.VERIF / "harness" / "corpus" / PROP
     corpus = [json.loads(f.read_text()) for f in sorted(d.glob("*.json"))] if d.is_dir() else []
     return corpus + cases
@@ -195,11 +217,16 @@ def judge(ck, r):
     """specification verdicts on one history (model-free)"""
     c = r["case"]
     cross = bool(c.get("cross"))
+    if r.get("literal_tilde"):
+        ck.fail("C06:tilde-not-expanded", f"a home-relative location ({c['kind']}) was handed to zarr unexpanded: a literal "
+                f"'~' directory was created in the working directory", c, None, "everything under the expanded path")
     for st, o in zip(c["steps"], r["steps"]):
         cc = {**c, "steps": c["steps"][: o["i"] + 1]}
         where = f"step {o['i']} ({st['entry']}, overwrite={st.get('overwrite', False)}, zarr_format={st['fmt']}, {c['kind']} store" + (
             ", with siblings)" if c.get("sib") else ")")
-        xf = cross and o["i"] == len(c["steps"]) - 1
+        # the known finding D16 concerns overwrite=True across formats only; without overwrite a geff in the
+        # other format must still be refused with every byte unchanged
+        xf = cross and st["fmt"] != c["steps"][0]["fmt"] and bool(st.get("overwrite", False))
         if not o["foreign_same"]:
             ck.fail("C06:overwrite-across-zarr-formats" if xf else "C06:foreign-content-changed",
                     f"{where}: foreign members / root attributes changed", cc, o.get("diff"), "foreign content byte-identical")
@@ -250,7 +277,9 @@ def run(ck: common.Check):
                "x zarr format x entry point per step (write_arrays, write_dicts, geff.write with 3 backends, both converters) x "
                "overwrite flags x graphs differing in size, id dtype and property sets; streams: corpus, bounded matrix "
                "(write; write; write(overwrite) for every kind x siblings x format x entry), seeded random histories, "
-               "cross-format histories; non-trivial = at least one step meets an existing geff")
+               "home-relative locations (~/… as str and Path with $HOME pointed at a temporary directory), cross-format histories "
+               "(overwrite=True across formats is the known finding; without overwrite the other-format geff must be refused "
+               "unchanged); non-trivial = at least one step meets an existing geff")
     cases = gen_cases(ck)
     results = common.pmap(run_case, cases, chunksize=1)
     drv = ck.driver()
